@@ -364,3 +364,5 @@ STREAMS = [
     Stream("gibbs", gen_gibbs, run_gibbs, quick=300, thorough=3000),
     Stream("simulate", gen_sim, run_sim, quick=180, thorough=1800),
 ]
+for _s in STREAMS:
+    _s.limit = 20          # a rejection loop that cannot hit the evidence never returns: report instead of hanging
